@@ -22,6 +22,44 @@ def close(a, b):
     return abs(fr(a) - F(b)) <= TOL * max(1, abs(F(b)))
 
 
+def generated_model(ctx, reqs, metas):
+    """the Lean code GENERATED from auxiliary.subsample / get_time_shift (harness/pyinvest2lean.py -> Gen/InvestGen.lean),
+    run by its own driver on the same inputs as the Python functions: results and exception kinds must coincide"""
+    import fcntl, subprocess, os, json, pyinvest2lean
+    lean = common.LEAN
+    os.makedirs(os.path.join(lean, ".audit"), exist_ok=True)
+    with open(os.path.join(lean, ".audit", "geninv.lock"), "w") as lock:
+        fcntl.flock(lock, fcntl.LOCK_EX)
+        try:
+            _, errors = pyinvest2lean.regenerate()
+        except Exception as e:
+            errors = {"translator": "crashed: %r" % e}
+        errors = {k: v for k, v in errors.items() if k in ("subsample", "get_time_shift", "translator", "auxiliary.py")}
+        if errors:
+            ctx.disagreement("generated-aux:translation", dict(entry="subsample/get_time_shift", errors=errors))
+            return
+        p = common.lake(["build", "driverinv"])
+    if p.returncode != 0:
+        ctx.disagreement("generated-aux:build", dict(entry="subsample/get_time_shift", log=(p.stdout + p.stderr)[-800:]))
+        return
+    exe = os.path.join(lean, ".lake", "build", "bin", "driverinv")
+    sel = [(r, m) for r, m in zip(reqs, metas) if m[0] in ("subsample", "timeshift")]
+    data = "\n".join(json.dumps(r, separators=(",", ":")) for r, _ in sel) + "\n"
+    q = subprocess.run([exe], input=data, capture_output=True, text=True)
+    lines = q.stdout.splitlines()
+    if q.returncode != 0 or len(lines) != len(sel):
+        raise RuntimeError("driverinv crashed: " + q.stderr[-1000:])
+    for (r, (kind, rep, impl)), line in zip(sel, lines):
+        g = json.loads(line)
+        ctx.count("generated-model-runs:" + kind)
+        if kind == "subsample":
+            same = (impl["ok"] and g.get("ok") and impl["outs"] == g["outs"]) or (not impl["ok"] and not g.get("ok") and impl["err"] == g.get("err"))
+        else:
+            same = (impl["ok"] and g.get("ok") and impl["t"] == g["t"]) or (not impl["ok"] and not g.get("ok") and impl["err"] == g.get("err"))
+        if not same:
+            ctx.disagreement("generated-" + kind, dict(rep, impl=impl, generated=g))
+
+
 def run(ctx):
     import EoN
     drv = common.LeanDriver()
@@ -153,6 +191,7 @@ def run(ctx):
         ctx.count("degree:n=%d" % G.order())
         reqs.append(dict(op="degree", adj=adj, xs=rep["xs"], T=rep["T"]))
         metas.append(("degree", rep, impl))
+    generated_model(ctx, reqs, metas)
     # ---- compare
     for (kind, rep, impl), m in zip(metas, drv.batch(reqs)):
         ctx.traces += 1
